@@ -175,6 +175,13 @@ fn run(ctx: &mut Ctx) {
                 }
                 v
             }
+            4 if rng.bool() => {
+                // 5..=24 samples: a few small ones, one big positive sample early, then only small negative ones (every
+                // window that fits reconstructs something and makes the fit worse)
+                let len = 5 + rng.usize(20);
+                let big_at = rng.usize(4);
+                (0..len).map(|k| fin(if k == big_at { rng.range(100.0, 2000.0) } else if k < big_at { rng.range(0.0, 15.0) } else { -rng.range(0.5, 6.0) })).collect()
+            }
             4 => {
                 let len = 1 + rng.usize(200);
                 let c = rng.range(-50.0, 50.0);
